@@ -48,8 +48,10 @@ func FetchRecord(ctx context.Context, r Resolver, fromDomain string) (policyDoma
 			return "", nil, err
 		}
 	}
-	if len(txts) == 0 {
-		// No records or 'no such host', try orgDomain.
+	// Exclude records that are not DMARC policies.
+	records := dmarcRecords(txts)
+	if len(records) == 0 {
+		// No DMARC records or 'no such host', try orgDomain.
 		// The public suffix list is matched byte-wise against lower-case labels.
 		orgDomain, err := publicsuffix.EffectiveTLDPlusOne(strings.ToLower(fromDomain))
 		if err != nil {
@@ -65,27 +67,27 @@ func FetchRecord(ctx context.Context, r Resolver, fromDomain string) (policyDoma
 				return "", nil, err
 			}
 		}
-		// Still nothing? Bail out.
-		if len(txts) == 0 {
-			return "", nil, nil
-		}
+		records = dmarcRecords(txts)
 	}
-
-	// Exclude records that are not DMARC policies.
-	records := txts[:0]
-	for _, txt := range txts {
-		if strings.HasPrefix(txt, "v=DMARC1") {
-			records = append(records, txt)
-		}
-	}
-	// Multiple records => no record.
-	if len(records) > 1 || len(records) == 0 {
+	// Multiple records or still nothing => no record.
+	if len(records) != 1 {
 		return "", nil, nil
 	}
 
 	rec, err = dmarc.Parse(records[0])
 
 	return policyDomain, rec, err
+}
+
+// dmarcRecords returns the TXT records that are DMARC policies.
+func dmarcRecords(txts []string) []string {
+	records := txts[:0]
+	for _, txt := range txts {
+		if strings.HasPrefix(txt, "v=DMARC1") {
+			records = append(records, txt)
+		}
+	}
+	return records
 }
 
 type EvalResult struct {
